@@ -7,10 +7,13 @@ mkdir -p /tmp/sv
 # the patch is applied to the current HEAD of /repo; a seeded change written against an earlier state of the fix history that no
 # longer applies there is applied to the commit it was written against instead (the check still runs against that whole tree)
 applied=""
-for base in HEAD c3ce33c d664c36; do
+# patch_rebased.diff = the same change carried over by hand to the current fix history (when a later `fix:` commit touches its lines)
+for cand in "HEAD patch.diff" "HEAD patch_rebased.diff" "c3ce33c patch.diff" "d664c36 patch.diff"; do
+  set -- $cand; base=$1; pf=$2
+  [ -f $src/$pf ] || continue
   git -C /repo worktree remove --force $wt >/dev/null 2>&1
   git -C /repo worktree add --detach $wt $base >/dev/null 2>&1 || continue
-  if git -C $wt apply $src/patch.diff 2>/tmp/sv/$id.apply; then applied=$base; break; fi
+  if git -C $wt apply $src/$pf 2>/tmp/sv/$id.apply; then applied="$base/$pf"; break; fi
 done
 if [ -z "$applied" ]; then echo "$id patch-does-not-apply"; git -C /repo worktree remove --force $wt >/dev/null 2>&1; exit 2; fi
 export OMP_NUM_THREADS=2 MKL_NUM_THREADS=2 MPLBACKEND=Agg
